@@ -10,7 +10,7 @@ func VerifC04_Terminator() {
 	mode := vInt("mode", 0, 2)
 	um := vInt("um", 0, 2)
 	ro := vBool("ro")
-	ctx := vInt("ctx", 0, 15)
+	ctx := vInt("ctx", 0, 17)
 	t1, t2 := vString("t1"), vString("t2")
 	x := vString("x")
 
@@ -22,6 +22,7 @@ func VerifC04_Terminator() {
 	}
 	flag := opt.Bool("flag", false)
 	str := opt.String("str", "d")
+	z := opt.String("z", "d")
 	sopt := opt.StringOptional("sopt", "dd")
 	iopt := opt.IntOptional("iopt", 5)
 	fopt := opt.Float64Optional("fopt", 2.5)
@@ -74,6 +75,15 @@ func VerifC04_Terminator() {
 		pre = []string{"--list", x, "second"}
 	case 15:
 		pre = []string{"--ilist", "7", "8"}
+	case 16:
+		// attached value of any shape (e.g. only `=` signs), long spelling
+		vAssume(x != "")
+		pre = []string{"--z=" + x}
+	case 17:
+		// the same with a single dash (Normal: option z; Bundling: a bundle of one letter)
+		vAssume(mode != 2)
+		vAssume(x != "")
+		pre = []string{"-z=" + x}
 	}
 	vPhase("run")
 	args := cat(pre, []string{"--", t1, t2})
@@ -95,6 +105,11 @@ func VerifC04_Terminator() {
 		vAssert("str", *str == x)
 	} else {
 		vAssert("str", *str == "d")
+	}
+	if ctx == 16 || ctx == 17 {
+		vAssert("attached-value-exact", *z == x)
+	} else {
+		vAssert("z-default", *z == "d")
 	}
 	vAssert("sopt-default", *sopt == "dd")
 	vAssert("sopt-called", opt.Called("sopt") == (ctx == 4))
